@@ -3,7 +3,7 @@ CONSTANTS
   MaxLen = 5
   Counts = {0, 1, 2}
   RangeLens = {0, 1, 2}
-  TmpLens = {0, 3, 5}
+  TmpLens = {0, 5}
 INIT Init
 NEXT Next
 VIEW View0
